@@ -42,8 +42,21 @@ RULE = (
     'x id from class attribute / get_id / instance attribute; length <= 2 '
     'with one-field-at-a-time variation, length 3 with default/first/last '
     'instances; programs containing Position under 4 versions around the '
-    '443 switch, the others under the newest version.  Every instance is '
-    'distinct by construction: (version, class, label).')
+    '443 switch, the others under the newest version.  Histories (same '
+    'thread, same context object): for every version of the tier and every '
+    'registered class A, with poison = a value that cannot be encoded (out '
+    'of range for the integer type, wrong Python type, malformed UUID, bad '
+    'element inside an array / nested record) placed in a field after the '
+    'first: [valid default A, A with one poisoned field (expected to raise), '
+    'valid default A] into ONE shared sink, for every poison of every field '
+    'at release versions and in the thorough tier, for the first and last '
+    'poison otherwise; and [valid A, poisoned B, valid C, valid A] with B, C '
+    'the next classes of the version, once into one shared sink and once '
+    'into fresh sinks.  Every valid write of a history must produce exactly '
+    'the frame the same packet produces in a clean state (written twice in '
+    'a row beforehand, both must agree) and must round-trip.  A poisoned '
+    'write that does not raise is counted, not judged.  Every instance and '
+    'sequence is distinct by construction: (version, class, label).')
 ASSUMPTIONS = [
     'the version thresholds at which the six hand-written codecs carry '
     'optional fields (MapPacket 107/364/373/452, SpawnObjectPacket '
@@ -447,6 +460,60 @@ class Env(object):
                     [e.default, e.last], [[], [e.first], three,
                                           list(reversed(three)) + [e.default]],
                     eq)
+
+    # -- values that cannot be encoded ("poison") ---------------------------
+    def poison(self, typ):
+        """Values of the wrong range / Python type for a field of this wire
+        type; writing one is expected to raise."""
+        T = self.T
+        if isinstance(typ, T.FixedPoint):
+            hi = INT_RANGES[typ.integer_type.__name__][1]
+            return [None, float(hi + 1) / typ.denominator]
+        if isinstance(typ, T.PrefixedArray):
+            e = self.spec(typ.element_type)
+            inner = self.poison(typ.element_type)
+            return [[e.default, inner[0]]] * bool(inner) + [None]
+        for base in typ.__mro__:
+            name = base.__name__
+            qual = getattr(base, '__qualname__', name)
+            mod = getattr(base, '__module__', '')
+            if not mod.startswith('minecraft.networking.'):
+                continue
+            if mod.endswith('types.basic'):
+                if name in INT_RANGES:
+                    return [INT_RANGES[name][1] + 1, 'x']
+                if name in ('VarInt', 'VarLong'):
+                    return [-1, 'x']
+                if name == 'Float':
+                    return ['x', 1e39]
+                if name in ('Double', 'Angle'):
+                    return ['x', None]
+                if name == 'String':
+                    return [None, 5]
+                if name == 'UUID':
+                    return ['zz', None]
+                if name in ('VarIntPrefixedByteArray', 'TrailingByteArray',
+                            'ShortPrefixedByteArray'):
+                    return [None, 5]
+                if name == 'Position':
+                    return [None, (1, 2)]
+                if name == 'NBT':
+                    return [5, {'a': 5}]
+                if name == 'Boolean':
+                    return []       # struct '?' accepts every object
+                continue
+            if qual == 'ExplosionPacket.Record':
+                return [base(1, 2, 300), None]
+            if qual == 'MultiBlockChangePacket.ChunkSectionPos':
+                return [base(1, None, 2), (1, 2)]
+            if qual == 'MultiBlockChangePacket.Record':
+                return [base(x=1, y=2, z=3, block_state_id=-1),
+                        base(x=1, y=2, z=None)]
+            if qual == 'SoundEffectPacket.EffectPosition':
+                return [T.Vector(1.0, None, 2.0), None]
+            if qual == 'SoundEffectPacket.Pitch':
+                return [None, 'x']
+        return []
 
     # -- structural equality of records ---------------------------------------
     def eq_deep(self, w, g):
@@ -1038,8 +1105,11 @@ def build_packet(cls, context, inst):
 
 
 def roundtrip(ctx, env, cls, ident, inst, case, want_id=None,
-              instance_id=None):
-    """Execute one case; report at most one violation.  -> outcome label."""
+              instance_id=None, sink=None, expect=None, after=''):
+    """Execute one case; report at most one violation.  -> outcome label.
+    sink: write into this (shared) buffer instead of a fresh one; expect: the
+    frame this packet produces in a clean state; after: what was written
+    before (history cases)."""
     context = env.context
     ctx.count()
 
@@ -1066,13 +1136,19 @@ def roundtrip(ctx, env, cls, ident, inst, case, want_id=None,
             except Exception as e:
                 return fail('build-raises', 'reading %s off the packet just '
                             'built raised %s: %s' % (a, type(e).__name__, e))
-    buf = env.PacketBuffer()
+    buf = env.PacketBuffer() if sink is None else sink
+    start = len(buf.get_writable())
     try:
         p.write(buf)
     except Exception as e:
-        return fail('write-raises', 'Packet.write raised %s: %s'
-                    % (type(e).__name__, e))
-    data = buf.get_writable()
+        return fail('write-raises', 'Packet.write raised %s: %s%s'
+                    % (type(e).__name__, e, after))
+    data = buf.get_writable()[start:]
+    if expect is not None and data != expect:
+        return fail('state', 'write() is not a function of the packet alone: '
+                    'it produced the frame %s, the same packet written in a '
+                    'clean state produces %s%s'
+                    % (data.hex()[:200], expect.hex()[:200], after))
     try:
         r = ref.Reader(data)
         body = r.take(r.varnum())
@@ -1225,6 +1301,7 @@ def run_class(ctx, env, direction, state, cls, only_label=None):
 
 def w_version(ctx, version):
     env = Env(version, ctx.seed)
+    entries = []
     for direction, state, get_packets in tables():
         try:
             classes = sorted(get_packets(env.context),
@@ -1239,9 +1316,193 @@ def w_version(ctx, version):
             continue
         for cls in classes:
             run_class(ctx, env, direction, state, cls)
+            entries.append((direction, state, cls))
+    run_history(ctx, env, entries)
     if version in (47, 757):
         ctx.sample({'version': version, 'classes':
                     sum(len(g(env.context)) for _, _, g in tables())})
+
+
+# ---------------------------------------------------------------------------
+# histories: write() must not depend on what was written before
+
+def hand_poisons(env, cls, base):
+    """(label, overrides) for the hand-written codecs; each override makes
+    write_fields raise after at least one field has been encoded."""
+    name = cls.__name__
+    d = dict(base.sets)
+    if name == 'MapPacket':
+        bad_icon = cls.MapIcon(None, 0, (0, 0))
+        return [('scale=300', [('scale', 300)]),
+                ('icon.type=None', [('icons', list(d['icons']) + [bad_icon])]),
+                ('pixels=None', [('pixels', None)])]
+    if name == 'PlayerListItemPacket':
+        A = cls.AddPlayerAction
+        mk = lambda **k: A(**dict(dict(          # noqa: E731
+            uuid=d['actions'][0].uuid, name=u'n', properties=[], gamemode=0,
+            ping=0, display_name=None), **k))
+        return [('2nd action name=None',
+                 [('actions', list(d['actions']) + [mk(name=None)])]),
+                ('2nd action uuid=zz',
+                 [('actions', list(d['actions']) + [mk(uuid='zz')])]),
+                ('2nd action ping=-1',
+                 [('actions', list(d['actions']) + [mk(ping=-1)])])]
+    if name == 'SpawnObjectPacket':
+        return [('data=2^31', [('data', 2 ** 31)]),
+                ('velocity_z=None', [('velocity_z', None)]),
+                ('type_id=x', [('type_id', 'x')])]
+    if name == 'CombatEventPacket':
+        E = cls.EntityDeadEvent
+        return [('entity_id=2^31', [('event', E(player_id=1, entity_id=2 ** 31,
+                                                message=u'm'))]),
+                ('message=None', [('event', E(player_id=1, entity_id=2,
+                                              message=None))])]
+    if name == 'FacePlayerPacket':
+        if env.ge(353):
+            return [('z=x', [('z', 'x')]),
+                    ('entity_origin=None', [('entity_origin', None)])]
+        return [('entity_id=x', [('entity_id', 'x')])]
+    if name == 'PluginResponsePacket':
+        return [('data=5', [('successful', True), ('data', 5)]),
+                ('message_id=-1', [('message_id', -1)])]
+    raise ToolError('C05: no poison values for hand-written %s' % name)
+
+
+def history_material(env, cls, thorough):
+    """-> (valid default Inst, [(label, overrides)]) for one class."""
+    kind, gen = instances(env, cls, thorough)
+    base = next(iter(gen))
+    if kind == 'hand-written':
+        return base, hand_poisons(env, cls, base)
+    definition = cls(context=env.context).definition
+    fields = []
+    for d in definition:
+        for name, typ in d.items():
+            if name not in [f for f, _ in fields]:
+                fields.append((name, typ))
+    poisons = []
+    for i, (name, typ) in enumerate(fields):
+        if i == 0 and len(fields) > 1:
+            continue        # prefer a failure after a valid field was encoded
+        for j, v in enumerate(env.poison(typ)):
+            poisons.append(('%s=%s' % (name, short(v, 30)), [(name, v)]))
+    return base, poisons
+
+
+def failing_write(ctx, env, cls, base, overrides, sink):
+    """Write a packet with a value that cannot be encoded.  -> exception type
+    name, or None when pyCraft accepted it (not judged)."""
+    ctx.count()
+    try:
+        p = cls(context=env.context)
+        for a, v in base.sets:
+            setattr(p, a, v)
+        for a, v in overrides:
+            setattr(p, a, v)
+    except Exception as e:
+        ctx.cls('history:poison rejected on assignment')
+        return 'assignment:' + type(e).__name__
+    try:
+        p.write(sink if sink is not None else env.PacketBuffer())
+    except Exception as e:
+        ctx.cls('history:poisoned write raised')
+        return type(e).__name__
+    ctx.cls('history:poison accepted (not judged)')
+    return None
+
+
+def clean_frame(env, cls, base):
+    """The frame of the default instance, written twice in a row with nothing
+    failing in between; None when that already raises (reported by the
+    round-trip enumeration)."""
+    out = []
+    for _ in range(2):
+        buf = env.PacketBuffer()
+        try:
+            build_packet(cls, env.context, base).write(buf)
+        except Exception:
+            return None, None
+        out.append(buf.get_writable())
+    return out[0], out[1]
+
+
+def run_history(ctx, env, entries, only=None):
+    """entries: [(direction, state, cls)] of one version, in table order."""
+    mats = []
+    for direction, state, cls in entries:
+        ident = '%s/%s/%s' % (direction, state, cls.__name__)
+        try:
+            base, poisons = history_material(env, cls, ctx.thorough)
+        except ToolError:
+            raise
+        except Exception:
+            continue            # reported as 'prepare' by run_class
+        first, frame = clean_frame(env, cls, base)
+        if frame is None:
+            continue            # reported as 'write-raises' by run_class
+        case = {'kind': 'history', 'version': env.version,
+                'direction': direction, 'state': state,
+                'class': cls.__name__, 'seed': env.seed, 'tier': ctx.tier}
+        if first != frame:
+            ctx.count()
+            ctx.violation('%s v=%s state' % (ident, vfmt(env.version)),
+                          '%s at protocol %s: the default instance written '
+                          'twice in a row gives %s and then %s'
+                          % (ident, vfmt(env.version), first.hex()[:200],
+                             frame.hex()[:200]), dict(case, seq='<twice>'))
+        mats.append((ident, cls, base, poisons, frame, case))
+    n = len(mats)
+    release = env.version in env.mc.RELEASE_PROTOCOL_VERSIONS
+    sequences = 0
+    for i, (ident, cls, base, poisons, frame, case) in enumerate(mats):
+        if only is not None and (case['direction'], case['state'],
+                                 case['class']) != only[:3]:
+            continue
+
+        def valid(m, sink, seq, after):
+            roundtrip(ctx, env, m[1], m[0], m[2], dict(case, seq=seq),
+                      sink=sink, expect=m[4], after=after)
+        # (1) valid A, (2) failing A', (3) valid A -- one shared sink
+        chosen = poisons if (release or ctx.thorough) else poisons[:1] + \
+            poisons[-1:] if len(poisons) > 1 else poisons
+        for plabel, overrides in chosen:
+            seq = 'same %s' % plabel
+            if only is not None and only[3] not in (seq, '<twice>'):
+                continue
+            sink = env.PacketBuffer()
+            valid(mats[i], sink, seq, '')
+            exc = failing_write(ctx, env, cls, base, overrides, sink)
+            valid(mats[i], sink, seq,
+                  ' [history: valid %s, then %s with %s -> %s, then this '
+                  'write; one shared sink]'
+                  % (cls.__name__, cls.__name__, plabel,
+                     exc or 'no exception'))
+            sequences += 1
+        # valid A, failing B, valid C, valid A -- B, C the next classes
+        others = [mats[(i + k) % n] for k in range(1, n)]
+        bs = [m for m in others if m[3]]
+        if not bs:
+            continue
+        b = bs[0]
+        cs = [m for m in others if m is not b] or [mats[i]]
+        c = cs[0]
+        for mode in ('shared', 'fresh'):
+            seq = 'interleave %s' % mode
+            if only is not None and only[3] not in (seq, '<twice>'):
+                continue
+            sink = env.PacketBuffer() if mode == 'shared' else None
+            valid(mats[i], sink, seq, '')
+            plabel, overrides = b[3][0]
+            exc = failing_write(ctx, env, b[1], b[2], overrides, sink)
+            note = ' [history: valid %s, then %s with %s -> %s, then valid ' \
+                '%s, then valid %s; %s sink]' % (
+                    cls.__name__, b[1].__name__, plabel,
+                    exc or 'no exception', c[1].__name__, cls.__name__, mode)
+            valid(c, sink, seq, note)
+            valid(mats[i], sink, seq, note)
+            sequences += 1
+    ctx.cls('history:sequences', sequences)
+    ctx.note_distinct(sequences)
 
 
 # ---------------------------------------------------------------------------
@@ -1437,7 +1698,8 @@ def run(ctx):
             'combat:EntityDeadEvent', 'face:entity', 'face:no entity',
             'plugin:unsuccessful', 'plugin:successful',
             'join:is_hardcore in game_mode', 'kind:hand-written',
-            'kind:definition', 'program len=2',
+            'kind:definition', 'program len=2', 'history:sequences',
+            'history:poisoned write raised',
             'program ending in TrailingByteArray',
             'clientbound/play/DeathCombatEventPacket',
             'serverbound/play/ClientSettingsPacket']
@@ -1460,6 +1722,15 @@ def replay(ctx, case):
         run_program(ctx, env, tuple(case['types']), case['decl'],
                     case['idmode'], case['pid'], case['full'],
                     only_label=case['label'])
+        return
+    if case['kind'] == 'history':
+        entries = []
+        for direction, state, get_packets in tables():
+            for cls in sorted(get_packets(env.context),
+                              key=lambda c: (c.__name__, c.__module__)):
+                entries.append((direction, state, cls))
+        run_history(ctx, env, entries, only=(
+            case['direction'], case['state'], case['class'], case['seq']))
         return
     get_packets = dict(((d, s), g) for d, s, g in tables())[
         case['direction'], case['state']]
